@@ -174,7 +174,9 @@ func (s *RegistrySyncer) syncRange(
 		})
 	})
 	if err != nil {
-		log.Warn().AnErr("error adding identity registered event into db", err)
+		// Do not carry on with the next range: its transaction would move the sync position past
+		// the events of this range, which have not been stored.
+		return errors.Wrap(err, "failed to store identity registered events and sync status")
 	}
 	log.Info().
 		Uint64("start-block", start).
